@@ -464,6 +464,15 @@ def mul_cases(cv, rng, ks_for, pts, ops=None):
                 out.append("%s %s 0 %s %s" % (op, cv.spec, ptok, hx(k)))
             else:
                 out.append("%s %s %d %s %s" % (op, cv.spec, rng.choice([0, 1]), tok(cv, rng.choice(pts), cv.add, rng), hx(k)))
+        if op in ("ed_mul", "ed_mul_gen") and not ops:
+            # one-digit scalars of both signs (dispatcher shortcuts), output distinct from / aliased to the input
+            D = 1 << cv.dgb
+            for k in [2, -2, 3, -3, D - 1, -(D - 1), (D >> 1) + 1, -((D >> 1) + 1), D, -D, D + 1, -(D + 1)]:
+                if op == "ed_mul":
+                    for al in (0, 1):
+                        out.append("%s %s %d %s %s" % (op, cv.spec, al, tok(cv, rng.choice(pts), cv.add, rng), hx(k)))
+                else:
+                    out.append("%s %s 0 %s" % (op, cv.spec, hx(k)))
     return out
 
 
